@@ -23,11 +23,15 @@ def jobs(tier):
         js.append({"code": code, "method": "fifo", "country": "us", "years": [2020, 2021, 2022], "filter": "from-to"})
         # short holding period through the generic plugin: long and short fractions of one sale inside one year
         js.append({"code": code, "method": "lifo", "country": "generic", "period": 1, "years": [2020, 2021], "filter": "to"})
+    # one symbolic UTC offset shared by all timestamps: the year and the to-date cut are those of the LOCAL date
+    for code in ["BSS", "BIS"] if tier == "quick" else ["BSS", "BIS", "BBS", "BSM"]:
+        js.append({"code": code, "method": "fifo", "country": "us", "years": [2020, 2021], "filter": "to", "off": "shared"})
+    js.append({"code": "BS", "method": "fifo", "country": "us", "years": [2020, 2021], "filter": "from-to", "off": "shared"})
     return js
 
 
 def describe(spec):
-    return "%s %s %s%s %s" % (spec["code"], spec["method"], spec["country"], "" if spec["country"] != "generic" else "(P=%d)" % spec["period"], spec["filter"])
+    return "%s %s %s%s %s%s" % (spec["code"], spec["method"], spec["country"], "" if spec["country"] != "generic" else "(P=%d)" % spec["period"], spec["filter"], " shared-offset" if spec.get("off") else "")
 
 
 def weight(spec):
@@ -35,11 +39,11 @@ def weight(spec):
 
 
 def bounds(tier):
-    return {"history_length": 3 if tier == "quick" else "3-4", "window_years": "2020-2022 (US, period 365) / 2020-2021 (generic, period 1 day)", "to_date": "any date from 2019-12-30 to the day after the window", "from_date": "jobs 'from-to': any date <= to_date in the same range", "amounts": "k*1e-11 in [1e-11, 1e9]", "prices": "k*1e-4 in [1e-4, 1e6]", "outside": ["Summary sheet cells (C13)", "mixed UTC offsets"]}
+    return {"history_length": 3 if tier == "quick" else "3-4", "window_years": "2020-2022 (US, period 365) / 2020-2021 (generic, period 1 day)", "to_date": "any date from 2019-12-30 to the day after the window", "from_date": "jobs 'from-to': any date <= to_date in the same range", "amounts": "k*1e-11 in [1e-11, 1e9]", "prices": "k*1e-4 in [1e-4, 1e6]", "utc_offset": "jobs marked shared-offset: one symbolic offset in [-12:00, +14:00] shared by all timestamps; otherwise UTC", "outside": ["Summary sheet cells (C13)", "different UTC offsets inside one history"]}
 
 
 def assumptions():
-    return ["per-fraction figures (proceeds, cost, gain, long/short) are taken from the GainLoss objects of the unfiltered run: C04/C05 decide those; C06 is about grouping and summation", "UTC timestamps"]
+    return ["per-fraction figures (proceeds, cost, gain, long/short) are taken from the GainLoss objects of the unfiltered run: C04/C05 decide those; C06 is about grouping and summation", "UTC timestamps, or one shared symbolic offset"]
 
 
 def run(S, spec):
@@ -47,7 +51,8 @@ def run(S, spec):
 
     years = spec["years"]
     S.set_years(years)
-    h = Hist(S, slots_of(spec["code"]), years)
+    off = S.int("off", -720, 840) if spec.get("off") else None
+    h = Hist(S, slots_of(spec["code"]), years, shared_off=off, shared_sym=off is not None)
     lo = date(years[0], 1, 1).toordinal() - 2
     hi = date(years[-1], 12, 31).toordinal() + 1
     to_ord = S.int("to", lo, hi)
